@@ -22,6 +22,13 @@ struct State {
     uint64_t draws = 0;       // since set()
     uint64_t total_draws = 0; // since process start
     uint64_t budget = 0;      // 0 = unlimited
+    // forced outcomes of GMP draws (mpz_urandomm), by draw index since set():
+    // every value in [0, n) is a possible draw, so the code under test must
+    // be right for the boundary ones too.  (index, mode): 0 -> 0, 1 -> 1,
+    // 2 -> n-1, 3 -> n/2, 4 -> 2  (reduced modulo n)
+    std::vector<std::pair<uint64_t, int>> forced;
+    uint64_t gmp_draws = 0;   // since set()
+    uint64_t forced_fired = 0;
 };
 inline State &state()
 {
@@ -39,6 +46,13 @@ inline void set(const std::vector<int> &list, uint64_t budget)
     for (int v : list)
         h = (h ^ (uint64_t)(unsigned)v) * 0x100000001b3ULL;
     s.fallback = h | 1;
+    s.forced.clear();
+    s.gmp_draws = 0;
+    s.forced_fired = 0;
+}
+inline void force(uint64_t draw_index, int mode)
+{
+    state().forced.emplace_back(draw_index, mode);
 }
 } // namespace simrand
 
